@@ -482,6 +482,7 @@ static struct StaticInitCaller {
       int nul = open("/dev/null", O_RDONLY);
       if (nul >= 0) dup2(nul, 0);
       alarm(5);
+      vfs::simulate_getrandom(true); // (process_init has not run yet)
       int code = 0;
       uint64_t before = vfs::urandom_consumed();
       try {
